@@ -305,8 +305,13 @@ def r5_r6(ctx, prog):
     ctx.ob('C02.R6', '%s|remove-iff-enabled' % d.name, len(dl) == 1 and g_ok and bool(cl) and d.path(dl[0]['args'][0]) == 'token_', 'deleteTimer(token_) only on the enabled edge, then is_enabled_ = false', where=d.loc(d.body))
     ini = prog.fn1(TE + '::initialize')
     dt = [f_ for f_ in prog.methods_of(TE) if f_.d.get('dtor')]
-    ok = bool(q.calls(ini, callee=TE + '::disable')) and bool(dt) and bool(q.calls(dt[0], callee=TE + '::disable'))
-    ctx.ob('C02.R6', TE + '|disable-on-reinit-and-destroy', ok, 'initialize() and the destructor disable first')
+    def always_disables(g):
+        ds = q.calls(g, callee=TE + '::disable')
+        return bool(ds) and not g.cfg.exists_path(g.cfg.entry_point(), 'exit', avoid=q.pts(g, ds), src_inclusive=True)
+    ok = always_disables(ini) and bool(dt) and always_disables(dt[0])
+    ctx.ob('C02.R6', TE + '|disable-on-reinit-and-destroy', ok, 'every path through initialize() and through the destructor disables the timer' if ok else
+           'a path through %s leaves without disable(): a timer that is still armed keeps its old deadline — it fires although it was re-initialised and not enabled, '
+           'and the next enable() does not start a fresh full interval' % ('initialize()' if not always_disables(ini) else 'the destructor'), where=ini.loc(ini.body))
 
 
 def r7(ctx, prog):
